@@ -137,7 +137,10 @@ struct ListWorld : World {
         l = nullptr; qq = nullptr; qs = nullptr; qg = nullptr;
     }
     void sut_abandon() override { l = nullptr; qq = nullptr; qs = nullptr; qg = nullptr; }
-    void *sut_mutex() override { return nullptr; }
+#if QSIM_STRUCT
+    void *sut_mutex() override { return base() ? base()->qmutex : nullptr; }
+    bool sut_sees_mutex() override { return true; }
+#endif
     bool sut_user_lock() override { InSutLock s; base()->lock(base()); return true; }
     void sut_force_unlock() override { InSutLock s; base()->unlock(base()); }
     void sut_probe(Ctx &) override { InSut s; qlist_t *b = base(); b->getat(b, 0, nullptr, false); }
